@@ -39,7 +39,7 @@ Fixpoint h_find (h : heap) (id : N) : option block :=
 Fixpoint h_del (h : heap) (id : N) : heap :=
   match h with
   | [] => []
-  | b :: r => if N.eqb (k_id b) id then r else b :: h_del r id
+  | b :: r => if N.eqb (k_id b) id then h_del r id else b :: h_del r id
   end.
 Fixpoint h_set_refs (h : heap) (id : N) (n : N) : heap :=
   match h with
@@ -51,12 +51,13 @@ Fixpoint h_set_refs (h : heap) (id : N) (n : N) : heap :=
 (* m_mem_unref on a work list: unref the first id; when its count reaches zero
    the destructor runs (EDtor), unrefs the kids, and only then the block is
    freed (EFree).  Markers: inl id = "unref id", inr id = "free id now". *)
-Fixpoint unref_loop (fuel : nat) (h : heap) (work : list (N + N)) (acc : list ev) : heap * list ev :=
+Fixpoint unref_loop (fuel : nat) (h : heap) (work : list (N + N)) (acc : list ev)
+  : heap * list ev * list (N + N) :=
   match fuel with
-  | O => (h, acc)
+  | O => (h, acc, work)
   | S f =>
       match work with
-      | [] => (h, acc)
+      | [] => (h, acc, [])
       | inr id :: w => unref_loop f (h_del h id) w (acc ++ [EFree id])
       | inl id :: w =>
           match h_find h id with
@@ -72,7 +73,7 @@ Fixpoint unref_loop (fuel : nat) (h : heap) (work : list (N + N)) (acc : list ev
 
 (* enough fuel: every work item is processed at most twice per live block *)
 Definition unref_fuel (h : heap) : nat :=
-  S (2 * length h + 2 * fold_right (fun b n => length (k_kids b) + n) 0 h).
+  S (S (2 * length h + 2 * fold_right (fun b n => length (k_kids b) + n) 0 h)).
 
 Definition k_step (h : heap) (o : kop) : heap * list ev :=
   match o with
@@ -93,7 +94,7 @@ Definition k_step (h : heap) (o : kop) : heap * list ev :=
   | KUnref id | KUnrefp id =>
       match h_find h id with
       | None => (h, [ERet (-1)])
-      | Some _ => let '(h1, e) := unref_loop (unref_fuel h) h [inl id] [] in (h1, e ++ [EPtr 0])
+      | Some _ => let '(h1, e, _) := unref_loop (unref_fuel h) h [inl id] [] in (h1, e ++ [EPtr 0])
       end
   | KSize id =>
       match h_find h id with
